@@ -6,6 +6,8 @@ newline passes) sits behind `old_changes = cpd.changes` so that it forces anothe
 `old_changes != cpd.changes`; between the loop and output_text() no call can create/delete/move chunks or newlines.
 NOT decided: the column arithmetic of indent_text() (the actual promise of the property).
 """
+import re
+
 from ..facts import expr_str, walk, in_macro
 from .common_io import UNC
 from .c20 import _raisers
@@ -99,4 +101,140 @@ def rule_pipeline_order(ctx):
     r.floor(8)
 
 
-RULES = [rule_pipeline_order]
+ORIG_READERS = ("Chunk::GetOrigCol", "Chunk::GetOrigColEnd", "Chunk::GetOrigPrevSp")
+
+
+def _is_logging(f, n):
+    """the read is an argument of a diagnostic: under a `log_sev_on(..)` fact, or inside fprintf/log_fmt"""
+    for cn, pol in f.guard_conds(f.nblock[n["i"]]):
+        if cn is not None and pol is True and expr_str(f, cn).startswith("log_sev_on("):
+            return True
+    ps = f.parents()
+    top = n["i"]
+    while ps.get(top):
+        top = ps[top][0]
+        t = f.nodes[top]
+        if t["k"] == "call" and t.get("c") in ("fprintf", "log_fmt", "log_flags"):
+            return True
+    return False
+
+
+def _comment_guarded(f, n):
+    """a dominating fact says that the chunk whose original position is read is a comment"""
+    recv = expr_str(f, n.get("o")) if "o" in n else ""
+    for cn, pol in f.guard_conds(f.nblock[n["i"]]):
+        if cn is None or pol is not True:
+            continue
+        s = expr_str(f, cn)
+        if s in ("%s->IsComment()" % recv, "is_comment", "%s->IsSingleLineComment()" % recv):
+            return True
+    return False
+
+
+def rule_orig_col_independence(ctx):
+    """C18, last sentence: the original indentation of a statement's first line has no influence on where the line is
+    placed.  Decided part: with every option at its default, no read of an original-position accessor in the indent
+    pass is live except on comments, same-line spacing and three reviewed sites; every other read sits behind an
+    option whose default switches it off (indent_ignore_*, *_preserve_*, `== -1`)."""
+    db = ctx.db
+    r = ctx.rule("orig-col-independence", "every non-diagnostic read of Chunk::GetOrigCol/GetOrigColEnd/GetOrigPrevSp in code reachable from "
+                 "indent_text() is unreachable with all options at their defaults (constant folding of the dominating option tests along "
+                 "every call chain), or reads the position of a chunk that a dominating test shows to be a comment, or lies in a function "
+                 "reached only from such sites, or is a reviewed exception; so the first token of a code line is placed independently of "
+                 "its original column unless an option asks for it")
+    from ..effects import option_defaults, Liveness
+    ind = db.fn("indent_text", file="src/indent.cpp")
+    dv, consts = option_defaults(db)
+    env = {k: {v} for k, v in dv.items() if isinstance(v, int)}
+    r.require(len(env) >= 800, "only %d options have a foldable default" % len(env))
+    lv = Liveness(db, env, ind)
+    reach = db.reachable_from([ind])
+    # comment-only functions: every live call site passes a chunk under a comment fact, or sits in a comment-only function
+    sites = []
+    for k in sorted(reach):
+        f = db.funcs[k]
+        for n in f.all_nodes():
+            if n["k"] == "call" and n.get("c") in ORIG_READERS:
+                sites.append((f, n))
+    r.require(len(sites) >= 100, "only %d reads of the original-position accessors found under indent_text()" % len(sites))
+    comment_only = set()
+    changed = True
+    while changed:
+        changed = False
+        for k in reach:
+            if k in comment_only or k == ind.key:
+                continue
+            cs = [(g, m) for (g, m) in lv.sites.get(k, ()) if g.key in lv.alive and not lv.site_dead(g, m)[0]]
+            if cs and all(g.key in comment_only or _call_passes_comment(g, m) for g, m in cs):
+                comment_only.add(k)
+                changed = True
+    r.note("comment-only functions (derived): %s" % ", ".join(sorted(db.funcs[k].qn for k in comment_only)))
+    cnt = {}
+    nlog = ndead = ncomment = 0
+    for f, n in sites:
+        r.seen()
+        if _is_logging(f, n):
+            nlog += 1
+            continue
+        recv = expr_str(f, n.get("o")) if "o" in n else "?"
+        ps = f.parents()
+        top = n["i"]
+        while ps.get(top):
+            top = ps[top][0]
+        key = "%s/%s" % (f.qn, re.sub(r"\s+", " ", expr_str(f, top))[:60])
+        cnt[key] = cnt.get(key, 0) + 1
+        inst = key if cnt[key] == 1 else "%s#%d" % (key, cnt[key])
+        loc = db.loc(f, n)
+        ok, why = lv.is_alive(f, n)
+        if not ok:
+            ndead += 1
+            r.ok(inst, loc, "dead under the default configuration: %s" % why)
+            continue
+        if f.key in comment_only or _comment_guarded(f, n):
+            ncomment += 1
+            r.ok(inst, loc, "position of a comment chunk")
+            continue
+        r.fail(inst, loc, "%s of `%s` in %s is live with every option at its default and is not the position of a comment: the original "
+               "column can reach the output column: `%s`" % (n["c"], recv, f.qn, db.src_line(f.file, n["l"])[:90]))
+    # checked preconditions of the reviewed exceptions
+    #  (1) ParsingFrame::push stores the original column of the opener; it must only ever be read by diagnostics
+    for g, m in db.callers_of("ParenStackEntry::GetOpenCol"):
+        r.check(_is_logging(g, m), "GetOpenCol/diagnostic-only/%s" % g.qn, db.loc(g, m), "ParenStackEntry::GetOpenCol() (the opener's original column) is "
+                "read outside a diagnostic in %s" % g.qn)
+    #  (2) indent_text records sql_orig_col; every read of it must be dead under the defaults
+    for n in ind.nodes.values():
+        if n["k"] == "ref" and n.get("n") == "sql_orig_col" and n.get("d") == "lv":
+            ps = ind.parents().get(n["i"], [])
+            if any(ind.nodes[p]["k"] == "asg" and ind.nodes[p]["a"][0] == n["i"] for p in ps):
+                continue
+            if _is_logging(ind, n):
+                continue
+            ok, why = lv.is_alive(ind, n)
+            r.check(not ok, "sql_orig_col/read-dead", db.loc(ind, n), "sql_orig_col is read on a path that is live under the default configuration")
+    #  (3) align_to_column: almod leaves SHIFT only under the fact that the chunk is a comment
+    atc = db.fn("align_to_column", file="src/indent.cpp")
+    nasg = 0
+    for n in atc.nodes.values():
+        if n["k"] == "asg" and expr_str(atc, n["a"][0]) == "almod":
+            nasg += 1
+            conds = [(expr_str(atc, cn), pol) for cn, pol in atc.guard_conds(atc.nblock[n["i"]]) if cn is not None]
+            r.check(("pc->IsComment()", True) in conds, "align_to_column/almod-only-for-comments", db.loc(atc, n),
+                    "align_to_column leaves the SHIFT mode for a chunk that no dominating test shows to be a comment")
+    r.require(nasg >= 1, "align_to_column no longer assigns almod")
+    r.note("reads: %d diagnostic, %d dead under defaults, %d on comments" % (nlog, ndead, ncomment))
+    r.floor(30)
+
+
+def _call_passes_comment(g, m):
+    """call site m in g passes (as first argument) a chunk that a dominating fact shows to be a comment"""
+    a = m.get("a") or []
+    if not a:
+        return False
+    x = expr_str(g, a[0])
+    for cn, pol in g.guard_conds(g.nblock[m["i"]]):
+        if cn is not None and pol is True and expr_str(g, cn) in ("%s->IsComment()" % x, "%s->IsSingleLineComment()" % x):
+            return True
+    return False
+
+
+RULES = [rule_pipeline_order, rule_orig_col_independence]
